@@ -11,7 +11,7 @@ use rsjsonnet_lang::program::Program;
 use serde_json::json;
 use std::cell::Cell;
 
-fn replace_nth(e: &E, k: usize, new: &E) -> E {
+pub fn replace_nth(e: &E, k: usize, new: &E) -> E {
     fn go(e: &E, k: usize, new: &E, ctr: &Cell<usize>) -> E {
         let me = ctr.get();
         ctr.set(me + 1);
@@ -25,7 +25,7 @@ fn replace_nth(e: &E, k: usize, new: &E) -> E {
     go(e, k, new, &Cell::new(0))
 }
 
-fn nth<'a>(e: &'a E, k: usize) -> Option<&'a E> {
+pub fn nth<'a>(e: &'a E, k: usize) -> Option<&'a E> {
     fn go<'a>(e: &'a E, k: usize, ctr: &mut usize) -> Option<&'a E> {
         if *ctr == k {
             return Some(e);
